@@ -77,6 +77,7 @@ JoinPool(p) ==
   {BlankL(E), HeaderL(E, <<83>>, E), HeaderL(E, <<84>>, E)}
   \cup {EntryL(E, k, s, x, FALSE, E, E, E) : k \in {a, b}, s \in {s1}, x \in {v, w, E}}
   \cup {EntryL(sp, a, sp \o s1 \o sp, v \o sp \o w, FALSE, sp, E, E)}
+  \cup {EntryL(E, a, s1, v \o sp \o w, TRUE, E, E, E)}            \* a definition in double quotes (the quotes are not part of the joined text)
   \cup {EntryL(E, a, s1, x, FALSE, sp, <<p.comment[1]>>, cc) : x \in {v, E}}      \* a (re)definition / an empty "reset" definition with a trailing comment
   \cup {ContL(sp, w, E, E, E), ContL(tb \o sp, v \o sp \o w, sp, E, E)}
 
